@@ -73,7 +73,9 @@ fn main() {
       let _ = GLOBAL_PROPERTY.set(r.property.clone());
       // E4 replays are statistical: repeat (see NOTES.md)
       // E4p replays force their interleaving with the pause plan: mostly deterministic, repeated a few times
-      let reps = if r.engine == ENGINE_CONC || r.engine == ENGINE_LOADER { 200 } else if r.engine == ENGINE_PAIR { 10 } else { 1 };
+      // E1 histories in maint_always configurations race the real janitor thread: repeated as well
+      let janitor_timing = r.engine == ENGINE_SEQ && r.scenario.get("cfg").and_then(|c| c.get("maint_always")).and_then(|b| b.as_bool()).unwrap_or(false);
+      let reps = if r.engine == ENGINE_CONC || r.engine == ENGINE_LOADER { 200 } else if r.engine == ENGINE_PAIR { 10 } else if janitor_timing { 30 } else { 1 };
       for _ in 0..reps {
         if let Some(f) = run_replay(&r) {
           if f.property == r.property {
